@@ -14,6 +14,13 @@ Extracted (fail closed on every other shape):
     (attribute / item stores, del, setattr, mutating method calls rooted at the parameter or at a local bound from it,
     deepcopy(...) results excepted) -> Pure / Touches; and is every value handed to `.set` a deepcopy(...) (or taken
     from a name bound to one) -> src_value_copy
+  * where the run sites put the seed bracket (src_seeding): which `pipeline_seed=` reaches run_pipeline from
+    Observation.run_pipelines / _run_single_pipeline, from the dask chain (run_pipelines_with_dask -> apply_ufunc kwargs ->
+    _run_pipelines_tuple_to_array -> _run_pipelines_array_to_datatree), from ModelFittingDataTree.fitness / _apply_parameters
+    (self.pipeline_seed <- __init__ <- Calibration.run_calibration), and whether a `with set_random_seed(...)` surrounds the
+    loop over the runs -> SeedEachRun / SeedOncePerCall / SeedNever
+  * the pickle route (src_pickle_policy): ModelGroup.__getstate__ hands the models over as they are and __setstate__
+    restores them as they were handed over (Deep), does not restore them (Drop), anything else fails closed
   * no class under pyxel/{pipelines,detectors,data_structure,exposure,observation} other than Processor / ModelGroup
     defines __deepcopy__/__copy__/__reduce__/__reduce_ex__/__getstate__/__setstate__
 """
@@ -24,7 +31,7 @@ from pathlib import Path
 
 from harness.core import TranslationError
 
-from .common import HEADER, body_no_doc, fail, find_func, parse
+from .common import HEADER, body_no_doc, fail, find_func, find_funcs, parse
 
 COPY_SITES = ("create_new_processor", "Processor.replace", "update_processor", "build_processors",
               "ModelFittingDataTree.__init__")
@@ -363,6 +370,349 @@ def use_site(fn: ast.FunctionDef, copier: str, what: str) -> str:
     return mode
 
 
+# ------------------------------------------------------------------ where do the run sites put the seed bracket?
+
+SEED_BRACKETS = {"set_random_seed", "pyxel.util.set_random_seed", "util.set_random_seed"}
+RNG_STATE_CALLS = {"np.random.seed", "numpy.random.seed", "np.random.set_state", "numpy.random.set_state",
+                   "np.random.default_rng", "numpy.random.default_rng", "random.seed"}
+SEED_ATTRS = ("pipeline_seed", "_pipeline_seed")
+
+
+def _fn_params(fn) -> set:
+    a = fn.args
+    return {x.arg for x in a.posonlyargs + a.args + a.kwonlyargs}
+
+
+def _rebound(fn, name: str) -> bool:
+    return any(name in names for names, _ in _bindings(fn))
+
+
+def seed_kind(expr, fn, what: str, _depth: int = 0) -> str:
+    """'seed' (the user's pipeline_seed held by self), 'param' (the function's own parameter `pipeline_seed`, handed on
+    unchanged), 'none' (no seed)."""
+    if expr is None or (isinstance(expr, ast.Constant) and expr.value is None):
+        return "none"
+    if isinstance(expr, ast.Attribute) and isinstance(expr.value, ast.Name) and expr.value.id == "self" \
+            and expr.attr in SEED_ATTRS:
+        return "seed"
+    if isinstance(expr, ast.Name) and expr.id == "pipeline_seed" and expr.id in _fn_params(fn):
+        if _rebound(fn, "pipeline_seed"):
+            fail(expr, f"{what}: `pipeline_seed` is re-bound inside the function")
+        return "param"
+    if isinstance(expr, ast.Name) and expr.id not in _fn_params(fn) and _depth < 3:
+        # a local alias: bound exactly once, by a plain assignment, to a recognised seed expression
+        vals = [val for names, val in _bindings(fn) if expr.id in names]
+        plain = [st for st in ast.walk(fn) if isinstance(st, (ast.Assign, ast.AnnAssign)) and any(
+            isinstance(t, ast.Name) and t.id == expr.id for t in (st.targets if isinstance(st, ast.Assign) else [st.target]))]
+        if len(vals) == 1 and len(plain) == 1:
+            return seed_kind(vals[0], fn, what, _depth + 1)
+    fail(expr, f"{what}: unrecognised seed expression")
+
+
+def _bracket_seed(expr):
+    """The seed expression of `set_random_seed(<seed>)`, or False when expr is no seed bracket."""
+    if not (isinstance(expr, ast.Call) and ast.unparse(expr.func) in SEED_BRACKETS):
+        return False
+    kws = {k.arg: k.value for k in expr.keywords}
+    return kws.get("seed", expr.args[0] if expr.args else None)
+
+
+def calls_in_context(fn, pred, what: str):
+    """[(call, stack)] for every call of fn satisfying pred; stack (outermost first) lists the enclosing
+    ('with', seed kind) seed brackets and ('loop',) loops / comprehensions."""
+    out = []
+
+    def walk(node, stack):
+        if isinstance(node, (ast.With, ast.AsyncWith)):
+            new = list(stack)
+            for it in node.items:
+                sd = _bracket_seed(it.context_expr)
+                if sd is not False:
+                    new.append(("with", seed_kind(sd, fn, what)))
+                else:
+                    walk(it.context_expr, stack)
+            for st in node.body:
+                walk(st, new)
+            return
+        if isinstance(node, (ast.For, ast.AsyncFor)):
+            walk(node.iter, stack)
+            for st in node.body + node.orelse:
+                walk(st, stack + [("loop",)])
+            return
+        if isinstance(node, ast.While):
+            for st in [node.test] + node.body + node.orelse:
+                walk(st, stack + [("loop",)])
+            return
+        if isinstance(node, (ast.ListComp, ast.SetComp, ast.GeneratorExp, ast.DictComp)):
+            walk(node.generators[0].iter, stack)
+            inner = stack + [("loop",)]
+            for i, g in enumerate(node.generators):
+                if i:
+                    walk(g.iter, inner)
+                for c in g.ifs:
+                    walk(c, inner)
+            for e in ([node.key, node.value] if isinstance(node, ast.DictComp) else [node.elt]):
+                walk(e, inner)
+            return
+        if isinstance(node, ast.Call):
+            fname = ast.unparse(node.func)
+            if fname in RNG_STATE_CALLS:
+                fail(node, f"{what}: the generator is seeded / its state set by hand")
+            if fname in SEED_BRACKETS:
+                fail(node, f"{what}: set_random_seed used outside a `with` statement")
+            if pred(node):
+                out.append((node, list(stack)))
+        for child in ast.iter_child_nodes(node):
+            walk(child, stack)
+
+    for st in fn.body:
+        walk(st, [])
+    return out
+
+
+def _is_run_pipeline(node) -> bool:
+    return ast.unparse(node.func).split(".")[-1] == "run_pipeline"
+
+
+def _kw(call, name):
+    return {k.arg: k.value for k in call.keywords}.get(name)
+
+
+def decide_seeding(stack, kind: str, run_loop: int, what: str) -> str:
+    """stack: brackets / loops around the run_pipeline call (outermost first); kind: what run_pipeline gets as
+    pipeline_seed; run_loop: index in stack of the loop over the runs (brackets before it surround ALL runs)."""
+    if kind == "seed":
+        return "SeedEachRun"                       # run_pipeline brackets the run itself
+    if kind != "none":
+        raise TranslationError(f"{what}: seed of kind {kind} not resolved")
+    per_run = [e for e in stack[run_loop + 1:] if e[0] == "with" and e[1] == "seed"]
+    inner_loop = any(e[0] == "loop" for e in stack[run_loop + 1:])
+    per_call = [e for e in stack[:max(run_loop, 0)] if e[0] == "with" and e[1] == "seed"]
+    if per_run and not inner_loop:
+        return "SeedEachRun"
+    if per_run and inner_loop:
+        # a bracket inside the run loop but around a further loop: accepted only when it is the innermost construct
+        last_with = max(i for i, e in enumerate(stack) if e[0] == "with" and e[1] == "seed")
+        if not any(e[0] == "loop" for e in stack[last_with + 1:]):
+            return "SeedEachRun"
+        return "SeedOncePerCall"
+    if per_call:
+        return "SeedOncePerCall"
+    return "SeedNever"
+
+
+def _self_seed_is_users(cls_node, what: str) -> bool:
+    """Does `self.pipeline_seed` hold the constructor's `pipeline_seed` argument (directly or through the property)?"""
+    init = [n for n in cls_node.body if isinstance(n, ast.FunctionDef) and n.name == "__init__"]
+    if len(init) != 1 or "pipeline_seed" not in _fn_params(init[0]):
+        return False
+    # nobody but the constructor and the property setter stores the seed (an object that moves its seed on from call
+    # to call gives the second call another seed than the user configured)
+    for n in cls_node.body:
+        if isinstance(n, ast.FunctionDef) and n.name not in ("__init__", "pipeline_seed"):
+            for st in ast.walk(n):
+                tgts = st.targets if isinstance(st, (ast.Assign, ast.Delete)) else \
+                    [st.target] if isinstance(st, (ast.AugAssign, ast.AnnAssign)) else []
+                if any(self_attr(t) in SEED_ATTRS for t in tgts):
+                    fail(st, f"{what}: {cls_node.name}.{n.name} changes the stored pipeline seed")
+    stored = set()
+    for st in ast.walk(init[0]):
+        tgt = val = None
+        if isinstance(st, ast.Assign) and len(st.targets) == 1:
+            tgt, val = st.targets[0], st.value
+        elif isinstance(st, ast.AnnAssign) and st.value is not None:
+            tgt, val = st.target, st.value
+        if tgt is not None and self_attr(tgt) in SEED_ATTRS:
+            if isinstance(val, ast.Name) and val.id == "pipeline_seed":
+                stored.add(self_attr(tgt))
+            else:
+                return False
+    if "pipeline_seed" in stored:
+        return True
+    if "_pipeline_seed" in stored:
+        for n in cls_node.body:
+            if isinstance(n, ast.FunctionDef) and n.name == "pipeline_seed" and any(
+                    ast.unparse(d) == "property" for d in n.decorator_list):
+                b = body_no_doc(n)
+                return len(b) == 1 and isinstance(b[0], ast.Return) and self_attr(b[0].value) == "_pipeline_seed"
+    return False
+
+
+def _class(tree, name):
+    c = [n for n in ast.walk(tree) if isinstance(n, ast.ClassDef) and n.name == name]
+    if len(c) != 1:
+        raise TranslationError(f"class {name}: found {len(c)}")
+    return c[0]
+
+
+def _agree(vals, what):
+    vals = set(vals)
+    if len(vals) != 1:
+        raise TranslationError(f"{what}: the run_pipeline calls are seeded in different ways: {sorted(vals)}")
+    return vals.pop()
+
+
+def seeding_rows(obs, dsk, fit, cal) -> list:
+    rows = []
+    # ---- observation, loop path: run_pipelines -> [ _run_single_pipeline(el) for el in parameters ] -> run_pipeline
+    what = "Observation.run_pipelines (loop)"
+    ocls = _class(obs, "Observation")
+    users = _self_seed_is_users(ocls, what)
+    f_single = find_func(obs, "_run_single_pipeline", "Observation")
+    f_runs = find_func(obs, "run_pipelines", "Observation")
+    inner = calls_in_context(f_single, _is_run_pipeline, what)
+    outer = calls_in_context(f_runs, lambda c: ast.unparse(c.func).split(".")[-1] == "_run_single_pipeline", what)
+    if not inner or not outer:
+        raise TranslationError(f"{what}: run_pipeline / _run_single_pipeline call not found")
+    res = []
+    for oc, ostack in outer:
+        loops = [i for i, e in enumerate(ostack) if e[0] == "loop"]
+        if not loops:
+            raise TranslationError(f"{what}: _run_single_pipeline is not called in a loop over the parameter items")
+        for ic, istack in inner:
+            kind = seed_kind(_kw(ic, "pipeline_seed"), f_single, what)
+            if kind == "param":
+                kind = seed_kind(_kw(oc, "pipeline_seed"), f_runs, what)
+            if kind == "seed" and not users:
+                kind = "none"
+            stack = [(e[0], ("seed" if users else "none")) if e[0] == "with" and e[1] == "seed" else e
+                     for e in ostack + istack]
+            res.append(decide_seeding(stack, kind, loops[-1], what))
+    rows.append(("Observation.run_pipelines", _agree(res, what)))
+    # ---- observation, dask path: the seed is handed down run_pipelines -> run_pipelines_with_dask -> apply_ufunc kwargs
+    #      -> _run_pipelines_tuple_to_array -> _run_pipelines_array_to_datatree -> run_pipeline
+    what = "observation_dask"
+    f_arr = find_func(dsk, "_run_pipelines_array_to_datatree")
+    f_tup = find_func(dsk, "_run_pipelines_tuple_to_array")
+    f_dask = find_func(dsk, "run_pipelines_with_dask")
+
+    def passed(fn, callee, where):
+        """kinds with which fn hands pipeline_seed to callee (direct call, or kwargs={...} of a call that gets the callee)"""
+        hits = calls_in_context(fn, lambda c: ast.unparse(c.func).split(".")[-1] == callee or any(
+            isinstance(a, ast.Name) and a.id == callee for a in c.args), where)
+        out = []
+        for c, stack in hits:
+            if any(e[0] == "with" for e in stack):
+                raise TranslationError(f"{where}: a seed bracket around a (lazily computed) dask call")
+            if ast.unparse(c.func).split(".")[-1] == callee:
+                out.append(seed_kind(_kw(c, "pipeline_seed"), fn, where))
+            else:
+                kwargs = _kw(c, "kwargs")
+                if not isinstance(kwargs, ast.Dict) and _kw(c, "pipeline_seed") is not None:
+                    out.append(seed_kind(_kw(c, "pipeline_seed"), fn, where))     # functools.partial(callee, pipeline_seed=..)
+                    continue
+                if not isinstance(kwargs, ast.Dict):
+                    fail(c, f"{where}: {callee} handed to a call without a literal kwargs dict")
+                d = {k.value: v for k, v in zip(kwargs.keys, kwargs.values) if isinstance(k, ast.Constant)}
+                out.append(seed_kind(d.get("pipeline_seed"), fn, where))
+        return out
+
+    kinds = []
+    for c, stack in calls_in_context(f_arr, _is_run_pipeline, what):
+        if any(e[0] == "with" for e in stack):
+            raise TranslationError(f"{what}: seed bracket around run_pipeline in _run_pipelines_array_to_datatree")
+        kinds.append(seed_kind(_kw(c, "pipeline_seed"), f_arr, what))
+    if not kinds:
+        raise TranslationError(f"{what}: no run_pipeline call")
+    k = _agree(kinds, what)
+    if k == "param":
+        links = passed(f_tup, "_run_pipelines_array_to_datatree", what) + \
+                passed(f_dask, "_run_pipelines_array_to_datatree", what) + \
+                passed(f_dask, "_run_pipelines_tuple_to_array", what)
+        if not links:
+            raise TranslationError(f"{what}: nobody calls _run_pipelines_array_to_datatree")
+        k = _agree(links, what)
+        if k == "param":
+            top = passed(f_runs, "run_pipelines_with_dask", "Observation.run_pipelines (dask)")
+            if not top:
+                raise TranslationError("Observation.run_pipelines: run_pipelines_with_dask is not called")
+            k = _agree(top, what)
+            if k == "param":
+                raise TranslationError("Observation.run_pipelines has no pipeline_seed parameter to hand on")
+    if k == "seed" and not users:
+        k = "none"
+    rows.append(("dask.run_pipelines_with_dask", "SeedEachRun" if k == "seed" else "SeedNever"))
+    # ---- calibration: Calibration.run_calibration -> ModelFittingDataTree(pipeline_seed=self.pipeline_seed) -> fitness /
+    #      _apply_parameters -> run_pipeline(pipeline_seed=self.pipeline_seed)
+    fcls = _class(fit, "ModelFittingDataTree")
+    ccls = _class(cal, "Calibration")
+    handed = False
+    for node in ast.walk(ccls):
+        if isinstance(node, ast.Call) and ast.unparse(node.func).split(".")[-1] == "ModelFittingDataTree":
+            v = _kw(node, "pipeline_seed")
+            handed = self_attr(v) in SEED_ATTRS if v is not None else False
+            if not handed:
+                break
+    users_fit = _self_seed_is_users(fcls, "ModelFittingDataTree") and _self_seed_is_users(ccls, "Calibration") and handed
+    for name in ("fitness", "_apply_parameters"):
+        what = f"ModelFittingDataTree.{name}"
+        fn = find_func(fit, name, "ModelFittingDataTree")
+        res = []
+        for c, stack in calls_in_context(fn, _is_run_pipeline, what):
+            kind = seed_kind(_kw(c, "pipeline_seed"), fn, what)
+            if kind == "param":
+                raise TranslationError(f"{what}: has no caller inside pyxel that could hand a seed on")
+            if kind == "seed" and not users_fit:
+                kind = "none"
+            stack = [(e[0], ("seed" if users_fit else "none")) if e[0] == "with" and e[1] == "seed" else e for e in stack]
+            loops = [i for i, e in enumerate(stack) if e[0] == "loop"]
+            res.append(decide_seeding(stack, kind, loops[0] if loops else -1, what))
+        if not res:
+            raise TranslationError(f"{what}: no run_pipeline call")
+        rows.append((what, _agree(res, what)))
+    return rows
+
+
+# ------------------------------------------------------------------ the pickle route (multi-process / distributed schedulers)
+
+def pickle_policy(proc_tree, grp_tree, proc_fields) -> tuple:
+    """The copy policy of a pickle round trip.  Processor has no pickle hook (scan_hooks): every field goes through.
+    ModelGroup.__getstate__ / __setstate__ (when present): `return {"k": tuple|list(self.models) | self.models, ...}` and
+    `self.models = list|tuple(state["k"]) | state["k"]` -> Deep; the models not restored -> Drop; anything else fails closed
+    (a filtered, sorted, re-built list is not the user's list of models)."""
+    procs = [(f, "Deep") for f, _ in proc_fields]
+    get = find_funcs(grp_tree, "__getstate__", "ModelGroup")
+    sett = find_funcs(grp_tree, "__setstate__", "ModelGroup")
+    if not get and not sett:
+        return procs, [("models", "Deep")]
+    if len(get) != 1 or len(sett) != 1:
+        raise TranslationError("ModelGroup: __getstate__ and __setstate__ must both be defined (once)")
+    gb = body_no_doc(get[0])
+    if not (len(gb) == 1 and isinstance(gb[0], ast.Return) and isinstance(gb[0].value, ast.Dict)):
+        fail(get[0], "ModelGroup.__getstate__ must be `return {...}`")
+    key = None
+    for k, v in zip(gb[0].value.keys, gb[0].value.values):
+        if not (isinstance(k, ast.Constant) and isinstance(k.value, str)):
+            fail(gb[0], "ModelGroup.__getstate__: non-literal key")
+        txt = ast.unparse(v)
+        if "models" in txt:
+            if txt not in ("tuple(self.models)", "list(self.models)", "self.models"):
+                fail(v, "ModelGroup.__getstate__: the models are not handed over as they are")
+            key = k.value
+        elif self_attr(v) is None and not isinstance(v, ast.Constant):
+            fail(v, "ModelGroup.__getstate__: unrecognised value")
+    if key is None:
+        return procs, [("models", "Drop")]
+    state = sett[0].args.args[1].arg if len(sett[0].args.args) > 1 else None
+    mode = "Drop"
+    for st in body_no_doc(sett[0]):
+        tgt = val = None
+        if isinstance(st, ast.Assign) and len(st.targets) == 1:
+            tgt, val = st.targets[0], st.value
+        elif isinstance(st, ast.AnnAssign) and st.value is not None:
+            tgt, val = st.target, st.value
+        if tgt is None or self_attr(tgt) is None:
+            fail(st, "ModelGroup.__setstate__: only `self.<attr> = ...` statements")
+        if self_attr(tgt) == "models":
+            ok = {f"list({state}['{key}'])", f"tuple({state}['{key}'])", f"{state}['{key}']"}
+            if ast.unparse(val) not in ok:
+                fail(st, "ModelGroup.__setstate__: the models are not restored as they were handed over")
+            mode = "Deep"
+        elif "models" in ast.unparse(val):
+            fail(st, "ModelGroup.__setstate__: the models are stored somewhere else")
+    return procs, [("models", mode)]
+
+
 def scan_hooks(repo: Path):
     for d in SCAN_DIRS:
         for f in sorted((repo / d).rglob("*.py")):
@@ -386,6 +736,7 @@ def extract(repo: Path) -> dict:
     obs = parse(repo, "pyxel/observation/observation.py")
     dsk = parse(repo, "pyxel/observation/observation_dask.py")
     fit = parse(repo, "pyxel/calibration/fitting_datatree.py")
+    cal = parse(repo, "pyxel/calibration/calibration.py")
     scan_hooks(repo)
     pf = custom_copy(proc, "Processor")
     gf = custom_copy(grp, "ModelGroup")
@@ -418,20 +769,24 @@ def extract(repo: Path) -> dict:
         ("dask._run_pipelines_array_to_datatree", find_func(dsk, "_run_pipelines_array_to_datatree"), "processor"),
     ]]
     vcopy = [(name, value_copied(fn, name)) for name, fn, src in copy_fns]
-    return dict(proc_fields=pf, group_fields=gf, sites=sites, effects=effects, value_copy=vcopy)
+    ppf, pgf = pickle_policy(proc, grp, pf)
+    return dict(proc_fields=pf, group_fields=gf, sites=sites, effects=effects, value_copy=vcopy,
+                seeding=seeding_rows(obs, dsk, fit, cal), pickle_proc=ppf, pickle_group=pgf)
 
 
 def render(d: dict) -> str:
     def tbl(rows):
         return "[" + "; ".join(f'("{n}", {m})' for n, m in rows) + "]"
     return (HEADER +
-            "From Coq Require Import String List.\nFrom PyxelV Require Import Model.Heap Model.HeapExc.\n"
+            "From Coq Require Import String List.\nFrom PyxelV Require Import Model.Heap Model.HeapExc Model.HeapRng.\n"
             "Import ListNotations.\nOpen Scope string_scope.\n"
             f"Definition src_policy : policy := mkPolicy {tbl(d['proc_fields'])} {tbl(d['group_fields'])}.\n"
             f"Definition src_sites : list (string * cmode) := {tbl(d['sites'])}.\n"
             f"Definition src_site_effects : list (string * effect) := {tbl(d['effects'])}.\n"
             "Definition src_value_copy : list (string * bool) := "
-            f"{tbl([(n, 'true' if b else 'false') for n, b in d['value_copy']])}.\n")
+            f"{tbl([(n, 'true' if b else 'false') for n, b in d['value_copy']])}.\n"
+            f"Definition src_seeding : list (string * seeding) := {tbl(d['seeding'])}.\n"
+            f"Definition src_pickle_policy : policy := mkPolicy {tbl(d['pickle_proc'])} {tbl(d['pickle_group'])}.\n")
 
 
 def translate(repo: Path) -> str:
@@ -450,5 +805,9 @@ FALLBACK_DATA = dict(
                                                 "dask._run_pipelines_array_to_datatree")],
     value_copy=[(s, s in ("create_new_processor", "update_processor", "ModelFittingDataTree.__init__"))
                 for s in COPY_SITES],
+    seeding=[(s, "SeedEachRun") for s in ("Observation.run_pipelines", "dask.run_pipelines_with_dask",
+                                          "ModelFittingDataTree.fitness", "ModelFittingDataTree._apply_parameters")],
+    pickle_proc=[("detector", "Deep"), ("pipeline", "Deep"), ("observation", "Deep")],
+    pickle_group=[("models", "Deep")],
 )
 FALLBACK = render(FALLBACK_DATA)
